@@ -38,18 +38,93 @@ pub fn parse_one(text: &str) -> Result<One, String> {
 pub struct Project {
     pub stage: HashMap<String, Pfr>,
     pub valid: HashMap<String, Pfr>,
+    /// the parser went through a hostile pre-history before reaching the final (id -> content) state
+    pub hostile: bool,
 }
 
-/// Add the files in the given order and validate.
+/// qualified names of all `import a.b.C;` statements found in the texts (cheap textual scan)
+pub fn scan_imports(files: &[(String, String)]) -> Vec<String> {
+    let mut out = Vec::new();
+    for (_, t) in files {
+        let mut rest = t.as_str();
+        while let Some(i) = rest.find("import") {
+            rest = &rest[i + 6..];
+            if let Some(j) = rest.find(';') {
+                let name: String = rest[..j].chars().filter(|c| !c.is_whitespace()).collect();
+                if !name.is_empty() && name.contains('.') && name.chars().all(|c| c.is_ascii_alphanumeric() || c == '_' || c == '.') && !out.contains(&name) {
+                    out.push(name);
+                }
+            }
+        }
+    }
+    out
+}
+
+pub fn decoy_for(key: &str) -> String {
+    let (pkg, name) = key.rsplit_once('.').unwrap_or(("decoy", key));
+    format!("package {pkg}; parcelable {name} {{ int decoy; }}")
+}
+
+/// Add the files in the given order and validate. For half of the projects (chosen by content hash) the
+/// parser first goes through a hostile pre-history that leaves the same final state plus garbage files
+/// `zz_g` (and sometimes `zz_r`): decoy files defining keys the project imports are added (one under the id of the first real file,
+/// which the real content then replaces), validate() is called, one decoy is replaced by unparsable text and
+/// one is removed. Results must depend on the surviving contents only (C12), so every oracle still applies;
+/// this makes the project-based checks sensitive to stale caches.
 pub fn parse_project(files: &[(String, String)]) -> Result<Project, String> {
+    let h = crate::prng::hash_str(&files.iter().map(|f| f.1.as_str()).collect::<Vec<_>>().join("\u{1}"));
+    let hostile = h % 2 == 0 && std::env::var("VERIF_NO_HOSTILE_HISTORY").is_err() && !files.is_empty();
     lib(|| {
         let mut p: Parser<String> = Parser::new();
+        if hostile {
+            let imports = scan_imports(files);
+            if !imports.is_empty() {
+                let n = imports.len() as u64;
+                p.add_content("zz_g".to_string(), &decoy_for(&imports[(h / 2 % n) as usize]));
+                p.add_content("zz_r".to_string(), &decoy_for(&imports[(h / 14 % n) as usize]));
+                p.add_content(files[0].0.clone(), &decoy_for(&imports[(h / 98 % n) as usize]));
+            } else {
+                p.add_content("zz_g".to_string(), "package zz.decoy; parcelable D { }");
+            }
+        }
         for (id, text) in files {
             p.add_content(id.clone(), text);
         }
+        if hostile {
+            // variants: where validate() calls fall relative to the replacement / removal matters for stale caches
+            match h % 5 {
+                0 => {
+                    let _ = p.validate();
+                    p.add_content("zz_g".to_string(), "package zz garbage {");
+                    let _ = p.validate();
+                    p.remove_content("zz_r".to_string());
+                }
+                1 => {
+                    let _ = p.validate();
+                    p.remove_content("zz_r".to_string());
+                    let _ = p.validate();
+                    p.add_content("zz_g".to_string(), "package zz garbage {");
+                }
+                2 => {
+                    let _ = p.validate();
+                    p.add_content("zz_g".to_string(), "package zz garbage {");
+                    p.remove_content("zz_r".to_string());
+                }
+                3 => {
+                    // no removal at all after the replacements: zz_r is turned into garbage too
+                    p.add_content("zz_g".to_string(), "package zz garbage {");
+                    p.add_content("zz_r".to_string(), "also garbage");
+                }
+                _ => {
+                    p.remove_content("zz_r".to_string());
+                    p.add_content("zz_g".to_string(), "package zz garbage {");
+                    let _ = p.validate();
+                }
+            }
+        }
         let stage = p.verif_parse_results().clone();
         let valid = p.validate();
-        Project { stage, valid }
+        Project { stage, valid, hostile }
     })
 }
 
